@@ -921,7 +921,17 @@ class Run:
         if single:
             o1, d1 = self.archive.retrieve_single(arr[0])
             occ = np.array([o1])
-            data = {k: np.array([v]) if not isinstance(v, np.ndarray) or v.ndim == 0 else v[None] for k, v in d1.items()}
+            def one(name, v):
+                # (a batch of one around the single value; a plain Python object of an object field -- a str, an
+                # int -- must stay that object, np.array([v]) would turn it into a '<U..' / int64 array)
+                if isinstance(v, np.ndarray) and v.ndim > 0:
+                    return v[None]
+                if full[name].dtype == object:
+                    w = np.empty(1, dtype=object)
+                    w[0] = v
+                    return w
+                return np.array([v])
+            data = {k: one(k, v) for k, v in d1.items()}
         else:
             occ, data = self.archive.retrieve(arr)
         cells = [int(i) for i in self.archive.index_of(arr)] if len(qs) else []
